@@ -66,12 +66,10 @@ theorem read_static (c : Ctx) (k : Bytes) (v : Val) (hk : splitDots k = [k]) :
     (getChunks (c.setStatic k v).vars (splitDots k)) = v := by
   rw [hk]; simp [getChunks, setStatic_reads, insGet]
 
-theorem read_bytes (c : Ctx) (k : Bytes) (b : Bytes) (hk : splitDots k = [k]) (hb : b ≠ []) :
+/-- (also for EMPTY bytes: since the repair an empty bytes variable is a value, not "unset") -/
+theorem read_bytes (c : Ctx) (k : Bytes) (b : Bytes) (hk : splitDots k = [k]) :
     (getChunks (c.setBytes k b).vars (splitDots k)) = .bytes b := by
   rw [hk]; simp [getChunks, setBytes_reads]
-  cases b with
-  | nil => exact absurd rfl hb
-  | cons x xs => simp
 
 theorem read_counter (c : Ctx) (k : Bytes) (n : Int) (hk : splitDots k = [k]) :
     (getChunks (c.setCounter k n).vars (splitDots k)) = .int n := by
@@ -201,17 +199,20 @@ theorem cmp_after_setStatic (c : Ctx) (k : Bytes) (v : Val) (o : Op) (right : By
   unfold cmpCore
   simp only [hk, setStatic_reads]
 
-/-- A name that has just been given non-empty bytes compares byte-wise with them. -/
+/-- A name that has just been given bytes — EMPTY ones included — compares byte-wise with them. -/
 theorem cmp_after_setBytes (c : Ctx) (k : Bytes) (b : Bytes) (o : Op) (right : Bytes) (hk : splitDots k = [k])
-    (hb0 : indexOf 91 k = none) (hb : b ≠ []) :
+    (hb0 : indexOf 91 k = none) :
     ((c.setBytes k b).cmp k o right).1 = ((Val.bytes b).cmpLit o right).getD false := by
   unfold Ctx.cmp
   simp only [cmpPath_plain _ _ k hb0, Option.map_some, Option.getD_some]
   unfold cmpCore
   simp only [hk, setBytes_reads]
-  cases b with
-  | nil => exact absurd rfl hb
-  | cons x xs => simp
+
+/-- **C02, the empty string**: a variable set to the empty string equals the literal `""` and differs from `"x"`. -/
+theorem empty_bytes_compares (c : Ctx) (k : Bytes) (hk : splitDots k = [k]) (hb0 : indexOf 91 k = none) :
+    ((c.setBytes k []).cmp k .eq []).1 = true ∧ ((c.setBytes k []).cmp k .nq (lit "x")).1 = true ∧
+    ((c.setBytes k []).cmp k .eq (lit "x")).1 = false := by
+  refine ⟨?_, ?_, ?_⟩ <;> rw [cmp_after_setBytes c k [] _ _ hk hb0] <;> decide
 
 /-- **Inside a counter loop the LEFT operand's square-bracket index is substituted before the comparison** (repair:
     `{% if a[i].f > 0 %}` used to compare the literal path `a[i]`, which names nothing, and was always false): the
